@@ -23,10 +23,10 @@ ASSUMPTIONS = ['the independent recogniser vf/clsyntax.py is the reference for m
                'ANTLR: every generated well-formed text must be accepted by both)',
                'a formula text followed only by newlines is treated as well formed']
 TRUSTED = ['structural read-back of pysmt nodes (no solver)']
-FLOOR = {'quick': 10000, 'thorough': 100000}
+FLOOR = {'quick': 3000, 'thorough': 30000}
 BUDGET = {'quick': 90, 'thorough': 900}
 N = {'quick': 4000, 'thorough': 60000}
-REQUIRED = {'quick': {'malformed_rejected': 1500, 'wellformed_formulas': 3000, 'bases_parsed': 300, 'exhaustive_formulas': 3000},
+REQUIRED = {'quick': {'malformed_rejected': 1000, 'wellformed_formulas': 2000, 'bases_parsed': 200, 'exhaustive_formulas': 3000},
             'thorough': {'malformed_rejected': 15000, 'wellformed_formulas': 30000, 'bases_parsed': 3000, 'exhaustive_formulas': 3000}}
 
 LEAVES = [V('a'), V('b'), TOP, BOT]
